@@ -42,7 +42,7 @@ def run(ctx):
         ctx.exhaustive = False
     # histories of calls in one process (Sessions.tla): every call observes what the same call observes alone
     c02.run_cfg(ctx, "Sessions", "Sessions_quick.cfg" if ctx.tier == "quick" else "Sessions_thorough.cfg", session_replay.worker, "sess",
-                mk=lambda blocks: [(b, 6) for b in blocks])
+                mk=lambda blocks: [(b, 24) for b in blocks])      # histories of three calls: one in 24
     ctx.sample({"defs": ["d1/a/X.0.1: a.Y.0.1 f1", "d1/a/Y.0.1: b.X.0.1 f1; a.X.0.1 f2 (cycle)", "d2/b/X.0.1"],
                 "expected": "UndefinedDataTypeError at d1/a/Y.0.1:2"})
 
